@@ -34,3 +34,6 @@ CFG = {'harness': 'det',
  'note': 'a difference means the implementation accepts or refuses a chunk set differently from the proved '
          'well-formedness rule, or hands other bytes to the payload decoder; a `fails` on a rel4orders line is an '
          'order dependence observed on the implementation itself'}
+
+# translator plugins this property needs besides the board tables of tools/gen.py (none)
+CFG["gen_plugins"] = []
